@@ -30,6 +30,7 @@ class Desc:
     roundtrip: bool = True                # in the round-trippable class of C02
     notes: str = ''
     core: bool = False                    # always part of the quick tier selection
+    core_kinds: Optional[dict] = None     # type -> harness kinds that are core (None: every type, every kind)
 
     def check_types(self):
         if self.types is not None:
@@ -47,7 +48,7 @@ def _le(decls, name=''):
 def both(desc: Desc) -> List[Desc]:
     """the description and its big-endian twin"""
     t = Desc(desc.id + '_be', desc.file.twin(), desc.family, desc.rust, desc.python, desc.types,
-             desc.roundtrip, desc.notes, desc.core)
+             desc.roundtrip, desc.notes, desc.core, desc.core_kinds)
     desc.id += '_le'
     return [desc, t]
 
@@ -473,6 +474,22 @@ def repo_descs(backend) -> List[Desc]:
     return out
 
 
+# which (type, harness kind) pairs of the core descriptions are always in the quick tier: each pair is a
+# decision point of a generator that a seeded change showed the sampled families can miss
+CORE_KINDS = {
+    'f2_static_special': {'One32': ['c01', 'c04'], 'OneEn': ['c04'], 'StaticPad': ['c03', 'c16'],
+                          'PayloadThenPad': ['c04', 'c02'], 'CountPad': ['c01', 'c04'], 'One8': ['c03']},
+    'f2_derived_elem': {'Table': ['c03'], 'Inner': ['c03']},
+    'f5_odd_widths': {'Opt24': ['c01', 'c04', 'c02', 'c03', 'c05'], 'Opt40p': ['c03'], 'OptEn24': ['c03', 'c05'],
+                      'OptChild': ['c02'], 'Opt56t': ['c04']},
+    'f4_tlv_field': {'Child': ['c02', 'c03']},
+    'f3_empty': {'Empty': ['c18d', 'c01'], 'Blob': ['c18d', 'c04'], 'SBlob': ['c18d']},
+    'f4_cons_size': {'P': ['c06d'], 'Ext': ['c06v']},
+    'f4_wide_constraint': {'Frame': ['c06d'], 'Ping': ['c06v', 'c03']},
+    'f7_forward': {'Nest': ['c03']},
+}
+
+
 # --------------------------------------------------------------------------- assembly
 FAMILIES = {'F1': f1, 'F2': f2, 'F3': f3, 'F4': f4, 'F5': f5, 'F6': f6, 'F7': f7, 'F8': f8}
 
@@ -487,6 +504,10 @@ def corpus(tier='quick', seed=0, families=None, backend=None) -> List[Desc]:
     if not families or 'R' in families:
         if backend in ('rust', 'python'):
             out.extend(repo_descs(backend))
+    for d in out:
+        base = re.sub(r'_(le|be)$', '', d.id)
+        if d.core and base in CORE_KINDS:
+            d.core_kinds = CORE_KINDS[base]
     if backend == 'rust':
         out = [d for d in out if d.rust]
     elif backend == 'python':
